@@ -230,6 +230,22 @@ def foreign_records(tkey):
     full = record_len(C.save(rv.Synth(cls_of(tkey)())))
     for length in range(0, full):
         data = _with_option_record(tkey, lambda d: d[:length])
+        # bytes the shorter record does not have are ZERO (the documentation pads the record with zeros): options stored
+        # there read as the logical value of a stored 0, not as whatever the constructor put there
+        try:
+            m0 = C.load_bytes(data).module
+            for o in t.options:
+                if o.byte >= length:
+                    n += 1
+                    want0 = logical_expected(t, [])
+                    z = (1 if o.inverted else 0) if o.size == 1 else max(o.min or 0, 0)
+                    got0 = int(getattr(m0, o.name))
+                    if got0 != z:
+                        vs.append(C.viol("absent-option-byte-not-zero", {"type": tkey, "option": o.name},
+                                         {"loaded_record_bytes": length, "read": got0, "expected": z},
+                                         {"type": tkey, "foreign_record": ["short", length, o.name]}))
+        except Exception:
+            pass
         for o in t.options:
             n += 1
             case = {"type": tkey, "foreign_record": ["short", length, o.name]}
